@@ -16,6 +16,7 @@ const (
 	RelFresh       = "fresh"       // no target exists
 	RelPreexisting = "preexisting" // every target exists with an older, valid representation
 	RelPartial     = "partial"     // only the first target exists
+	RelSymlinkDir  = "symlinkdir"  // no target exists; the font directory path is a symlink to a directory (C07 only)
 )
 
 type fontInput struct {
